@@ -2,42 +2,39 @@
 C03 / C02 on the footnote grammar (PM stage 2b): the first content of an empty page is accepted, every page makes
 progress — a page with content strictly advances the resume position, a blank page made for postponed footnotes
 strictly shortens the list of postponed footnotes — and `make_all_pages` terminates.
-All for documents *without `footnote-policy: block`*: with that policy the clause is false of the code
-(`Witness/C01Foot.lean: policy_block_crashes`).
+For every `footnote-policy`: since repair 67bf2ca `footnote-policy: block` no longer cancels the first content of
+a page (the former witness `policy_block_crashes` is the regression example `policy_block_first_content` in
+`Witness/C01Foot.lean`), so the hypothesis "no `footnote-policy: block`" is gone from all theorems below.
 -/
 import WpModel.Props.C01Foot
+import WpModel.Drive.PaginateFoot
 
 namespace Wp.C03Foot
 open Wp Wp.PM Wp.PMF
 
-/-- **First content accepted**: laid out with `page_is_empty`, a box of a document without `footnote-policy: block`
-always yields a fragment, in any footnote state. -/
-theorem first_content_accepted (box : FootBox) (hnb : NoBlockPolicy box) (c : FCtx) (idx : Nat) (y bs : Rat)
+/-- **First content accepted**: laid out with `page_is_empty`, a box always yields a fragment, in any footnote
+state and whatever the footnote policies. -/
+theorem first_content_accepted (box : FootBox) (c : FCtx) (idx : Nat) (y bs : Rat)
     (skip : Option Resume) (cb : Bool) (adjL : List Rat) (fs : FState) :
     (layoutBoxF c box idx y bs skip cb true adjL fs).r.frag.isSome = true :=
-  box_someF box hnb c idx y bs skip cb adjL fs
+  box_someF box c idx y bs skip cb adjL fs
 
-theorem noBlock_emptyRootF (b : FootBox) : NoBlockPolicy (emptyRootF b) := by
-  cases b <;> simp [emptyRootF, NoBlockPolicy, NoBlockPolicyList]
-
-/-- `make_page` never fails its `assert root_box` (partial: no `footnote-policy: block`). -/
-theorem remakePageF_total_partial (d : FDoc) (hnb : NoBlockPolicy d.root) (index : Nat) (resume : Option Resume)
+/-- `make_page` never fails its `assert root_box` (full strength since repair 67bf2ca; was
+`remakePageF_total_partial`, for documents without `footnote-policy: block`). -/
+theorem remakePageF_total (d : FDoc) (index : Nat) (resume : Option Resume)
     (np : NextPage) (right : Bool) (pending reported : List Fn) :
     (remakePageF d index resume np right pending reported).isSome = true := by
   unfold remakePageF
   dsimp only
-  have key : ∀ (c : FCtx) (b : FootBox) (fs : FState), NoBlockPolicy b →
+  have key : ∀ (c : FCtx) (b : FootBox) (fs : FState),
       (layoutBoxF c b 0 0 0 resume false true [] fs).r.frag ≠ none := by
-    intro c b fs hb h
-    have := first_content_accepted b hb c 0 0 0 resume false [] fs
+    intro c b fs h
+    have := first_content_accepted b c 0 0 0 resume false [] fs
     rw [h] at this
     simp at this
   split
   · rename_i h
-    refine absurd h (key _ _ _ ?_)
-    split
-    · exact noBlock_emptyRootF _
-    · exact hnb
+    exact absurd h (key _ _ _)
   · rfl
 
 /-- **Strict progress of a page with content**: it finishes the content or hands a strictly later resume position
@@ -71,8 +68,8 @@ theorem placeReported_suffix (c : FCtx) (L : List Fn) (i : Nat) (fs : FState) (h
 theorem remakePageF_blank_state (d : FDoc) (index : Nat) (resume : Option Resume) (np : NextPage) (right : Bool)
     (pending reported : List Fn) (p : FPage) (hp : remakePageF d index resume np right pending reported = some p)
     (hb : p.page.type.blank = true) :
-    p.reported = (pageStart d (pageCtx d index np) pending reported).reported ∧
-    p.cur = (pageStart d (pageCtx d index np) pending reported).cur := by
+    p.reported = (pageStart d (pageCtxOf d index resume np right reported) pending reported).reported ∧
+    p.cur = (pageStart d (pageCtxOf d index resume np right reported) pending reported).cur := by
   unfold remakePageF at hp
   dsimp only at hp
   split at hp
@@ -89,7 +86,7 @@ theorem footnote_page_progress (d : FDoc) (index : Nat) (resume : Option Resume)
     (hb : p.page.type.blank = true) (hrep : reported ≠ []) :
     ∃ t, t ≠ [] ∧ reported = t ++ p.reported := by
   obtain ⟨h1, _⟩ := remakePageF_blank_state d index resume np right pending reported p hp hb
-  obtain ⟨t, ht, hne⟩ := placeReported_suffix (pageCtx d index np) reported 0
+  obtain ⟨t, ht, hne⟩ := placeReported_suffix (pageCtxOf d index resume np right reported) reported 0
     { pending := pending, cur := [], reported := [], pageBottom := d.pageH, areaH := none } rfl
   refine ⟨t, hne hrep rfl, ?_⟩
   rw [h1]; exact ht
@@ -103,7 +100,7 @@ private theorem isBlank_flip (side : Option Bool) (right : Bool) (h : isBlank si
   | some s => cases s <;> cases right <;> simp [isBlank] at h ⊢
 
 /-- Once only postponed footnotes are left, at most one page per footnote follows. -/
-theorem footnote_phase_terminates (d : FDoc) (hnb : NoBlockPolicy d.root) : ∀ (n index : Nat) (np : NextPage)
+theorem footnote_phase_terminates (d : FDoc) : ∀ (n index : Nat) (np : NextPage)
     (right : Bool) (pending reported : List Fn), reported.length ≤ n → reported ≠ [] →
     ∃ pages, makeAllPagesF d n index none np right pending reported = some pages ∧ pages.length ≤ n := by
   intro n
@@ -115,7 +112,7 @@ theorem footnote_phase_terminates (d : FDoc) (hnb : NoBlockPolicy d.root) : ∀ 
     | cons x xs => simp at hl
   | succ n ih =>
     intro index np right pending reported hl hne
-    have htot := remakePageF_total_partial d hnb index none np right pending reported
+    have htot := remakePageF_total d index none np right pending reported
     cases hp : remakePageF d index none np right pending reported with
     | none => rw [hp] at htot; cases htot
     | some p =>
@@ -181,10 +178,9 @@ def contentNeeded (d : FDoc) (resume : Option Resume) (np : NextPage) (right : B
   2 * (size d.root.erase - pos d.root.erase resume) +
     (if isBlank (requestedSide d.rootLtr np.brk) right then 1 else 0)
 
-/-- **`make_all_pages` terminates** (no `footnote-policy: block`): from every page-maker state some amount of fuel
+/-- **`make_all_pages` terminates** (any footnote policy): from every page-maker state some amount of fuel
 suffices (content pages: at most `contentNeeded`; then at most one blank page per footnote still postponed). -/
-theorem makeAllPagesF_terminates (d : FDoc) (hN : NoFixedHeight d.root.erase) (hW : WellFormed d.root.erase)
-    (hnb : NoBlockPolicy d.root) : ∀ (m index : Nat) (resume : Option Resume) (np : NextPage) (right : Bool)
+theorem makeAllPagesF_terminates (d : FDoc) (hN : NoFixedHeight d.root.erase) (hW : WellFormed d.root.erase) : ∀ (m index : Nat) (resume : Option Resume) (np : NextPage) (right : Bool)
     (pending reported : List Fn),
     contentNeeded d resume np right ≤ m →
     (resume = none → reported = [] → isBlank (requestedSide d.rootLtr np.brk) right = false) →
@@ -200,12 +196,12 @@ theorem makeAllPagesF_terminates (d : FDoc) (hN : NoFixedHeight d.root.erase) (h
     intro index resume np right pending reported h hstart
     -- only postponed footnotes left?
     by_cases hfoot : resume = none ∧ reported ≠ []
-    · obtain ⟨ps, hps, _⟩ := footnote_phase_terminates d hnb reported.length index np right pending reported
+    · obtain ⟨ps, hps, _⟩ := footnote_phase_terminates d reported.length index np right pending reported
         (Nat.le_refl _) hfoot.2
       rw [← hfoot.1] at hps
       exact ⟨_, ps, hps⟩
     · have hlt := PM.pos_lt_size d.root.erase resume
-      have htot := remakePageF_total_partial d hnb index resume np right pending reported
+      have htot := remakePageF_total d index resume np right pending reported
       cases hp : remakePageF d index resume np right pending reported with
       | none => rw [hp] at htot; cases htot
       | some p =>
@@ -233,7 +229,7 @@ theorem makeAllPagesF_terminates (d : FDoc) (hN : NoFixedHeight d.root.erase) (h
             | none =>
               have hrne : p.reported ≠ [] := by
                 intro he; apply hstop; simp [hres, he]
-              obtain ⟨ps, hps, _⟩ := footnote_phase_terminates d hnb p.reported.length (index + 1) p.page.nextPage
+              obtain ⟨ps, hps, _⟩ := footnote_phase_terminates d p.reported.length (index + 1) p.page.nextPage
                 (!right) p.pending p.reported (Nat.le_refl _) hrne
               exact ⟨_, ps, hps⟩
             | some r =>
@@ -268,14 +264,13 @@ theorem makeAllPagesF_terminates (d : FDoc) (hN : NoFixedHeight d.root.erase) (h
           simp only [hp]
           rw [if_neg hstop, hps]
 
-/-- **Pagination with footnotes terminates** with at least one page (no `footnote-policy: block`), and more fuel
-does not change the result. -/
-theorem paginateFoot_terminates (d : FDoc) (hN : NoFixedHeight d.root.erase) (hW : WellFormed d.root.erase)
-    (hnb : NoBlockPolicy d.root) :
+/-- **Pagination with footnotes terminates** with at least one page (any footnote policy), and more fuel does not
+change the result. -/
+theorem paginateFoot_terminates (d : FDoc) (hN : NoFixedHeight d.root.erase) (hW : WellFormed d.root.erase) :
     ∃ fuel pages, paginateFoot d fuel = some pages ∧ pages ≠ [] ∧
       ∀ k, paginateFoot d (fuel + k) = some pages := by
   unfold paginateFoot
-  obtain ⟨fuel, pages, hp⟩ := makeAllPagesF_terminates d hN hW hnb _ 0 none
+  obtain ⟨fuel, pages, hp⟩ := makeAllPagesF_terminates d hN hW _ 0 none
     { brk := none, page := some (boxPageStart d.root.erase) } (firstRight d.erase) (boxFns d.root) []
     (Nat.le_refl _) (fun _ _ => by simp [requestedSide, isBlank])
   refine ⟨fuel, pages, hp, ?_, fun k => makeAllPagesF_fuel_mono d fuel k _ _ _ _ _ _ pages hp⟩
@@ -291,19 +286,282 @@ theorem paginateFoot_terminates (d : FDoc) (hN : NoFixedHeight d.root.erase) (hW
       · cases hp
       · split at hp <;> cases hp
 
+/-! ### the page count is bounded by the amount of content -/
+
+theorem placeReported_cur_pos (c : FCtx) (L : List Fn) (i : Nat) (fs : FState) (h : 1 ≤ fs.cur.length) :
+    1 ≤ (placeReported c L i fs).cur.length := by
+  induction L generalizing i fs with
+  | nil => exact h
+  | cons f rest ih =>
+    unfold placeReported
+    dsimp only
+    have h1 : 1 ≤ (layoutFootnote c { fs with pending := fs.pending ++ [f] } f).1.cur.length := by
+      simp only [layoutFootnote_cur, List.length_append, List.length_singleton]
+      omega
+    split
+    · simp only [reportFootnote_cur, layoutFootnote_cur]
+      rw [List.length_erase_of_mem (by simp)]
+      simp only [List.length_append, List.length_singleton]
+      omega
+    · exact ih _ _ h1
+
+/-- A page made for postponed footnotes places at least one of them in its footnote area. -/
+theorem footnote_page_places (d : FDoc) (index : Nat) (resume : Option Resume) (np : NextPage) (right : Bool)
+    (pending reported : List Fn) (p : FPage) (hp : remakePageF d index resume np right pending reported = some p)
+    (hb : p.page.type.blank = true) (hrep : reported ≠ []) : 1 ≤ p.cur.length := by
+  obtain ⟨_, h2⟩ := remakePageF_blank_state d index resume np right pending reported p hp hb
+  rw [h2]
+  unfold pageStart
+  cases reported with
+  | nil => exact absurd rfl hrep
+  | cons f rest =>
+    unfold placeReported
+    dsimp only
+    split
+    · rename_i hov
+      simp at hov
+    · apply placeReported_cur_pos
+      simp only [layoutFootnote_cur, List.length_append, List.length_singleton]
+      omega
+
+/-- One page of content brings the page-maker strictly closer to the end (as stage 1). -/
+theorem content_step (d : FDoc) (hN : NoFixedHeight d.root.erase) (hW : WellFormed d.root.erase) (index : Nat)
+    (resume : Option Resume) (np : NextPage) (right : Bool) (pending reported : List Fn) (p : FPage)
+    (hp : remakePageF d index resume np right pending reported = some p)
+    (hfoot : ¬(resume = none ∧ reported ≠ [])) (r : Resume) (hres : p.page.resume = some r) :
+    contentNeeded d (some r) p.page.nextPage (!right) + 1 ≤ contentNeeded d resume np right := by
+  obtain ⟨hbl, hb1, _⟩ := remakePageF_spec d index resume np right pending reported p hp
+  have hside : isBlankF d resume np right reported = isBlank (requestedSide d.rootLtr np.brk) right := by
+    unfold isBlankF
+    have : (!reported.isEmpty && resume.isNone) = false := by
+      by_cases h1 : resume = none
+      · by_cases h2 : reported = []
+        · simp [h2]
+        · exact absurd ⟨h1, h2⟩ hfoot
+      · cases resume with
+        | none => exact absurd rfl h1
+        | some r => simp
+    rw [this, Bool.or_false]
+  have hlt := PM.pos_lt_size d.root.erase resume
+  cases hb : p.page.type.blank with
+  | true =>
+    obtain ⟨hres', hnp, _⟩ := hb1 hb
+    have hbs : isBlank (requestedSide d.rootLtr np.brk) right = true := by
+      rw [← hside, ← hbl]; exact hb
+    have hflip := isBlank_flip _ _ hbs
+    unfold contentNeeded
+    rw [hnp, hflip, hbs, ← hres, hres']
+    simp
+  | false =>
+    have hprog := page_progress d hN hW index resume np right pending reported p hp hb
+    rw [hres] at hprog
+    have hprog : pos d.root.erase resume < pos d.root.erase (some r) := by
+      rcases hprog with h | h
+      · cases h
+      · exact h
+    have hlt' := PM.pos_lt_size d.root.erase (some r)
+    unfold contentNeeded
+    have hbs : isBlank (requestedSide d.rootLtr np.brk) right = false := by
+      rw [← hside, ← hbl]; exact hb
+    rw [hbs]
+    split <;> simp <;> omega
+
+/-- **Page count, from every page-maker state**: once only postponed footnotes are left, every page places at
+least one footnote; before that, the pages are at most `contentNeeded` plus one per footnote placed. -/
+theorem makeAllPagesF_length (d : FDoc) (hN : NoFixedHeight d.root.erase) (hW : WellFormed d.root.erase) :
+    ∀ (fuel index : Nat) (resume : Option Resume) (np : NextPage) (right : Bool) (pending reported : List Fn)
+      (pages : List FPage), makeAllPagesF d fuel index resume np right pending reported = some pages →
+    ((resume = none ∧ reported ≠ []) → pages.length ≤ (pagesCur pages).length) ∧
+    (¬(resume = none ∧ reported ≠ []) →
+      pages.length ≤ contentNeeded d resume np right + (pagesCur pages).length) := by
+  intro fuel
+  induction fuel with
+  | zero => intro index resume np right pending reported pages h; simp [makeAllPagesF] at h
+  | succ fuel ih =>
+    intro index resume np right pending reported pages h
+    unfold makeAllPagesF at h
+    cases hp : remakePageF d index resume np right pending reported with
+    | none => rw [hp] at h; cases h
+    | some p =>
+      rw [hp] at h
+      simp only at h
+      obtain ⟨hbl, hb1, _⟩ := remakePageF_spec d index resume np right pending reported p hp
+      have hneed : 2 ≤ contentNeeded d resume np right := by
+        have := PM.pos_lt_size d.root.erase resume
+        unfold contentNeeded; omega
+      by_cases hstop : (p.page.resume.isNone && p.reported.isEmpty) = true
+      · rw [if_pos hstop] at h
+        simp only [Option.some.injEq] at h
+        subst h
+        constructor
+        · intro hfoot
+          have hblank : p.page.type.blank = true := by
+            rw [hbl, hfoot.1]
+            cases reported with
+            | nil => exact absurd rfl hfoot.2
+            | cons x xs => simp [isBlankF]
+          have := footnote_page_places d index resume np right pending reported p hp hblank hfoot.2
+          simpa [pagesCur] using this
+        · intro _
+          simp only [List.length_singleton]
+          omega
+      · rw [if_neg hstop] at h
+        cases hps : makeAllPagesF d fuel (index + 1) p.page.resume p.page.nextPage (!right) p.pending p.reported with
+        | none => rw [hps] at h; cases h
+        | some ps =>
+          rw [hps] at h
+          simp only [Option.some.injEq] at h
+          subst h
+          obtain ⟨i1, i2⟩ := ih (index + 1) p.page.resume p.page.nextPage (!right) p.pending p.reported ps hps
+          simp only [List.length_cons, pagesCur, List.length_append]
+          constructor
+          · intro hfoot
+            have hblank : p.page.type.blank = true := by
+              rw [hbl, hfoot.1]
+              cases reported with
+              | nil => exact absurd rfl hfoot.2
+              | cons x xs => simp [isBlankF]
+            have hplace := footnote_page_places d index resume np right pending reported p hp hblank hfoot.2
+            obtain ⟨hres, _, _⟩ := hb1 hblank
+            have hrne : p.reported ≠ [] := by
+              intro he; apply hstop; simp [hres, hfoot.1, he]
+            have := i1 ⟨by rw [hres]; exact hfoot.1, hrne⟩
+            omega
+          · intro hfoot
+            cases hres : p.page.resume with
+            | none =>
+              have hrne : p.reported ≠ [] := by
+                intro he; apply hstop; simp [hres, he]
+              have := i1 ⟨hres, hrne⟩
+              omega
+            | some r =>
+              have hstep := content_step d hN hW index resume np right pending reported p hp hfoot r hres
+              have := i2 (by rw [hres]; intro hc; cases hc.1)
+              rw [hres] at this
+              omega
+
+/-- **The page count is bounded by the amount of content** (C03), footnote documents: at most two pages per unit
+of content (line or box; the factor 2 pays for blank pages of left/right breaks) plus one page per footnote body —
+the blank pages "required by a postponed footnote" each place at least one footnote. -/
+theorem pages_bounded (d : FDoc) (h : C01Foot.FootWF d) (fuel : Nat) (pages : List FPage)
+    (hp : paginateFoot d fuel = some pages) :
+    pages.length ≤ 2 * size d.root.erase + (boxFns d.root).length := by
+  have hc := C01Foot.footnotes_conserve d h fuel pages hp
+  have hcur : (pagesCur pages).length = (boxFns d.root).length := by
+    rw [← hc]
+    congr 1
+    clear hc hp
+    induction pages with
+    | nil => rfl
+    | cons p ps ih => simp [pagesCur, ih]
+  unfold paginateFoot at hp
+  have := (makeAllPagesF_length d h.noFixed h.wellFormed fuel 0 none _ _ _ _ pages hp).2
+    (by intro hc; exact hc.2 rfl)
+  rw [hcur] at this
+  have hn : contentNeeded d none { brk := none, page := some (boxPageStart d.root.erase) } (firstRight d.erase) ≤
+      2 * size d.root.erase := by
+    unfold contentNeeded
+    simp [requestedSide, isBlank]
+    omega
+  omega
+
+/-- `make_all_pages` uses exactly one unit of fuel per page: a result is reproduced with `pages.length` fuel. -/
+theorem makeAllPagesF_fuel_exact (d : FDoc) : ∀ (fuel index : Nat) (resume : Option Resume) (np : NextPage)
+    (right : Bool) (pending reported : List Fn) (pages : List FPage),
+    makeAllPagesF d fuel index resume np right pending reported = some pages →
+    makeAllPagesF d pages.length index resume np right pending reported = some pages := by
+  intro fuel
+  induction fuel with
+  | zero => intro index resume np right pending reported pages h; simp [makeAllPagesF] at h
+  | succ fuel ih =>
+    intro index resume np right pending reported pages h
+    unfold makeAllPagesF at h
+    cases hp : remakePageF d index resume np right pending reported with
+    | none => rw [hp] at h; cases h
+    | some p =>
+      rw [hp] at h
+      simp only at h
+      split at h
+      · rename_i hstop
+        simp only [Option.some.injEq] at h
+        subst h
+        simp only [List.length_singleton]
+        unfold makeAllPagesF
+        simp only [hp]
+        rw [if_pos hstop]
+      · rename_i hstop
+        cases hps : makeAllPagesF d fuel (index + 1) p.page.resume p.page.nextPage (!right) p.pending p.reported with
+        | none => rw [hps] at h; cases h
+        | some ps =>
+          rw [hps] at h
+          simp only [Option.some.injEq] at h
+          subst h
+          simp only [List.length_cons]
+          unfold makeAllPagesF
+          simp only [hp]
+          rw [if_neg hstop, ih _ _ _ _ _ _ ps hps]
+
+/-- **Explicit fuel**: `2 · size + #footnotes` pages always suffice — pagination of a well-formed footnote document
+with that much fuel succeeds (so the `none` = `assert root_box` / out-of-fuel outcome of the model is unreachable),
+and any larger amount gives the same pages. -/
+theorem paginateFoot_total (d : FDoc) (h : C01Foot.FootWF d) (k : Nat) :
+    ∃ pages, paginateFoot d (2 * size d.root.erase + (boxFns d.root).length + k) = some pages ∧ pages ≠ [] ∧
+      pages.length ≤ 2 * size d.root.erase + (boxFns d.root).length := by
+  obtain ⟨fuel, pages, hp, hne, _⟩ := paginateFoot_terminates d h.noFixed h.wellFormed
+  have hb := pages_bounded d h fuel pages hp
+  refine ⟨pages, ?_, hne, hb⟩
+  unfold paginateFoot at hp ⊢
+  have hex := makeAllPagesF_fuel_exact d fuel 0 none _ _ _ _ pages hp
+  have := makeAllPagesF_fuel_mono d pages.length
+    (2 * size d.root.erase + (boxFns d.root).length + k - pages.length) 0 none _ _ _ _ pages hex
+  have he : pages.length + (2 * size d.root.erase + (boxFns d.root).length + k - pages.length) =
+      2 * size d.root.erase + (boxFns d.root).length + k := by omega
+  rw [he] at this
+  exact this
+
+/-! ### the driver's fuel -/
+
+mutual
+private theorem countBox_eq_size : (b : PBox) → Wp.Drive.Paginate.countBox b = size b
+  | .para _ n _ _ => by simp [Wp.Drive.Paginate.countBox, size]
+  | .block _ _ kids => by
+    simp only [Wp.Drive.Paginate.countBox, size, countKids_eq_sizeList kids]; omega
+private theorem countKids_eq_sizeList : (bs : List PBox) → Wp.Drive.Paginate.countKids bs = sizeList bs
+  | [] => by simp [Wp.Drive.Paginate.countKids, sizeList]
+  | b :: bs => by
+    simp only [Wp.Drive.Paginate.countKids, sizeList, countBox_eq_size b, countKids_eq_sizeList bs]
+end
+
+/-- **The compiled driver never runs out of fuel** on a well-formed footnote document: the page budget
+`fuelOf root = 2·(lines + boxes) + 8 + 2·#footnotes` it gives `paginateFoot` is enough, so its `err:pagination`
+output can only mean the `assert root_box` of `make_page` — which `remakePageF_total` excludes. The correspondence
+harness therefore compares real paginations, never an artefact of the fuel. -/
+theorem driver_fuel_suffices (d : FDoc) (h : C01Foot.FootWF d) :
+    ∃ pages, paginateFoot d (Wp.Drive.PaginateFoot.fuelOf d.root) = some pages ∧ pages ≠ [] := by
+  have he : Wp.Drive.PaginateFoot.fuelOf d.root =
+      2 * size d.root.erase + (boxFns d.root).length + (8 + (boxFns d.root).length) := by
+    unfold Wp.Drive.PaginateFoot.fuelOf
+    rw [countBox_eq_size]
+    omega
+  obtain ⟨pages, hp, hne, _⟩ := paginateFoot_total d h (8 + (boxFns d.root).length)
+  exact ⟨pages, by rw [he]; exact hp, hne⟩
+
 /-! ### non-vacuity -/
 
 /-- `exDoc2`: page 2 is the blank page required by the two postponed footnotes; it places both. -/
-example : NoBlockPolicy C01Foot.exDoc2.root ∧
+example :
     (remakePageF C01Foot.exDoc2 1 none { brk := none, page := some "" } false [] 
       [⟨1, 2, 10, .auto, ""⟩, ⟨2, 2, 10, .auto, ""⟩]).map
       (fun p => (p.page.type.blank, p.cur.map (·.fid), p.reported.map (·.fid))) = some (true, [1, 2], []) := by
-  constructor
-  · simp [C01Foot.exDoc2, C01Foot.exDocOf, NoBlockPolicy, NoBlockPolicyList]
-  · decide +kernel
+  decide +kernel
 
 /-- `exDoc` (3 pages with content): positions 0 < 3 < 4 of 8 units (the last page finishes: `none`). -/
 example : (paginateFoot C01Foot.exDoc 20).map (List.map (fun p => pos C01Foot.exDoc.root.erase p.page.resume)) =
     some [3, 4, 0] := by decide +kernel
+
+/-- `exDoc2` (size 6: 3 lines + 3 boxes, 2 footnotes): 2 pages ≤ 2·6 + 2, the second one made for the footnotes. -/
+example : size C01Foot.exDoc2.root.erase = 6 ∧ (boxFns C01Foot.exDoc2.root).length = 2 ∧
+    (paginateFoot C01Foot.exDoc2 (2 * 6 + 2)).map List.length = some 2 := by
+  refine ⟨by decide +kernel, by decide +kernel, by decide +kernel⟩
 
 end Wp.C03Foot
